@@ -17,7 +17,7 @@ SLOTS: dict[str, dict[str, str]] = {
     "terms.Parameterizer": {"placeholder_factory": "any", "values": "list[value]"},
     "terms.Negative": {"term": NODE},
     "terms.ValueWrapper": {"value": "value", "allow_parametrize": "bool"},
-    "terms.JSON": {"value": "value"},
+    "terms.JSON": {"value": "data"},
     "terms.Values": {"field": "Field"},
     "terms.LiteralValue": {"_value": "sql"},
     "terms.Field": {"name": "name", "table": "Selectable|None"},
@@ -40,13 +40,14 @@ SLOTS: dict[str, dict[str, str]] = {
     "terms.AggregateFunction": {"_filters": f"list[{NODE}]", "_include_filter": "bool"},
     "terms.AnalyticFunction": {"_partition": "list[any]", "_orderbys": f"list[tuple[{NODE},Order|None]]",
                                "_include_over": "bool"},
-    "terms.WindowFrameAnalyticFunction": {"frame": "sql|None", "bound": "any"},
+    "terms.WindowFrameAnalyticFunction": {"frame": "sql|None",
+                                          "bound": "sql|terms.WindowFrameAnalyticFunction.Edge|tuple|None"},
     "terms.WindowFrameAnalyticFunction.Edge": {"value": "any"},
     "terms.IgnoreNullsAnalyticFunction": {"_ignore_nulls": "bool"},
     "terms.Interval": {"dialect": "Dialects|None", "largest": "str|None", "smallest": "str|None",
                        "is_negative": "bool"},
     "terms.PseudoColumn": {"name": "sql"},
-    "terms.AtTimezone": {"field": "Field", "zone": "any", "interval": "any"},
+    "terms.AtTimezone": {"field": "Field", "zone": "sql", "interval": "data"},
     "functions.DistinctOptionFunction": {"_distinct": "bool"},
     "functions.ApproximatePercentile": {"percentile": "float"},
     "functions.Cast": {"as_type": "any"},
